@@ -380,6 +380,9 @@ def check(ix, rep):
         f_ = k_.methods.get('time_unit_transformer')
         if f_ is not None:
             ncache += memo.check_method(ix, rep, k_, f_, 'converter')
+    # the configured period survives reset(): reset() writes none of the attributes set_sampling_period() writes
+    from sa.rules import units as _ucfg
+    rep.floor('online reset chains checked against the sampling settings', _ucfg.check_reset_keeps_settings(ix, rep), 1)
     nfx = units.check_forwarding_exact(ix, rep)
     rep.floor('arguments forwarded from the specification to the ast', nfx, 8)
     npa = units.check_period_reaches_ast(ix, rep)
